@@ -13,14 +13,21 @@ structure MReq where
   issued : Rat
   due : Option Rat := none
   pending : Bool := true
-  isGroup : Bool := false
+  /-- the group of a `_send_request_to_coordinator` request -/
+  group : Option String := none
+  /-- the connection the request was last written to -/
+  conn : Option Nat := none
   deriving Repr
 
 structure MSt where
   now : Rat := 0
   reqs : List MReq := []
-  /-- `min_timeout`s of the `_send_request_to_coordinator` calls seen -/
-  mins : List Rat := []
+  /-- unfinished `_send_request_to_coordinator` calls: operation, group, `min_timeout` -/
+  srtcs : List (Nat × String × Option Rat) := []
+  /-- connections that must be told to close before the step ends (the timed-out requests' connections) -/
+  owedLose : List Nat := []
+  /-- connections already told to close (or dropped by the network) -/
+  gone : List Nat := []
   /-- the event of the current step -/
   cur : Option Ev := none
   /-- request whose top-level completion is the current step's event, if it was pending -/
@@ -43,22 +50,28 @@ def resolve (s : MSt) (k : Nat) : MSt := setReq s k (fun r => { r with pending :
 
 /-- the bound a request issued now may be armed with -/
 def boundOk (cfg : Cfg) (s : MSt) (r : MReq) (due : Rat) : Bool :=
-  due == r.issued + cfg.timeout ||
-  (r.isGroup && s.mins.any (fun m => due == r.issued + (if cfg.timeout < m then m else cfg.timeout)))
+  match r.group with
+  | none => due == r.issued + cfg.timeout
+  | some g =>
+    -- `max(timeout, min_timeout)` of one of the unfinished coordinator requests for that group
+    s.srtcs.any (fun e => e.2.1 == g && due == r.issued + (match e.2.2 with
+      | some m => if cfg.timeout < m then m else cfg.timeout
+      | none => cfg.timeout))
 
 def endStep (s : MSt) : MSt :=
-  let s1 := if s.owedDisc.isEmpty then s else fail s s!"timeout without disconnect of broker clients {s.owedDisc}"
+  let s0 := if s.owedDisc.isEmpty then s else fail s s!"timeout without disconnect of broker clients {s.owedDisc}"
+  let s1 := if s0.owedLose.isEmpty then s0 else fail s0 s!"the connections {s0.owedLose} that carried timed-out requests were not dropped"
   let s2 := match s1.lateOf with
     | some k => if s1.nobs == 1 then s1 else fail s1 s!"late reply to request {k} disturbed something"
     | none => s1
-  { s2 with owedDisc := [], lateOf := none }
+  { s2 with owedDisc := [], owedLose := [], lateOf := none }
 
 def stepItem (cfg : Cfg) (s : MSt) : TItem → MSt
   | .ev e =>
     let s := { (endStep s) with cur := some e, nobs := 0 }
     match e with
     | .advance dt => { s with now := s.now + dt }
-    | .srtc _ _ (some m) => { s with mins := s.mins ++ [m] }
+    | .srtc o g m => { s with srtcs := s.srtcs ++ [(o, g, m)] }
     | .fire k _ =>
       match getReq s k with
       | some r => if r.pending then resolve s k else { s with lateOf := some k }
@@ -68,7 +81,7 @@ def stepItem (cfg : Cfg) (s : MSt) : TItem → MSt
     let s := { s with nobs := s.nobs + 1 }
     match o with
     | .mk k b _ what =>
-      { s with reqs := s.reqs ++ [{ k := k, b := b, issued := s.now, isGroup := match what with | .group _ => true | _ => false }] }
+      { s with reqs := s.reqs ++ [{ k := k, b := b, issued := s.now, group := match what with | .group g => some g | _ => none }] }
     | .setTimer (.mrtb k) due =>
       match getReq s k with
       | none => fail s s!"timer for unknown request {k}"
@@ -89,14 +102,33 @@ def stepItem (cfg : Cfg) (s : MSt) : TItem → MSt
       match s.cur, getReq s k with
       | some (.advance _), some r =>
         (match r.due with
-         | some due => if due ≤ s.now && cfg.disconnectOnTimeout then { s with owedDisc := s.owedDisc ++ [r.b] } else s
+         | some due =>
+           if due ≤ s.now && cfg.disconnectOnTimeout then
+             { s with owedDisc := s.owedDisc ++ [r.b],
+                      owedLose := match r.conn with
+                        | some c => if s.gone.contains c then s.owedLose else s.owedLose ++ [c]
+                        | none => s.owedLose }
+           else s
          | none => s)
       | _, _ => s
     | .bcDisconnect b =>
       if !cfg.disconnectOnTimeout then fail s s!"disconnect of {b} although disconnect_on_timeout is off"
       else if s.owedDisc.contains b then { s with owedDisc := s.owedDisc.erase b }
       else fail s s!"disconnect of {b} without a timeout"
+    | .result o r =>
+      let s1 := { s with srtcs := s.srtcs.filter (fun e => !(e.1 == o)) }
+      -- a timeout must surface as RequestTimedOutError, never as the cancellation that implements it
+      let cancelledKind : Bool := match r with
+        | .fail .cancelled => true
+        | .okNone => true
+        | .failedPayloads _ fl => fl.any (fun f => f.2 == .cancelled)
+        | _ => false
+      (match s.cur with
+       | some (.advance _) => if cancelledKind then fail s1 s!"operation {o}: a timed-out request surfaced as a cancellation" else s1
+       | _ => s1)
     | _ => s
+  | .wrote k c => setReq s k (fun r => { r with conn := some c })
+  | .lose c => { s with owedLose := s.owedLose.filter (fun x => !(x == c)), gone := s.gone ++ [c] }
   | .timers l =>
     -- after the step: exactly the unresolved requests own a pending timer, due at issued+bound, not overdue
     let names := l.filterMap (fun t => match t.1 with | .mrtb k => some (k, t.2) | _ => none)
